@@ -1,6 +1,7 @@
 package main
 
 import (
+	"time"
 	"sort"
 	"bytes"
 	"fmt"
@@ -170,6 +171,9 @@ func runDetStream(c *runCtx) {
 	}
 	c.stats.Extra["seeds"] = len(seeds)
 	c.sameNameHistories(seeds)
+	if f := limitStress(250 * time.Millisecond); f != "" {
+		c.propfail("C01", f)
+	}
 	for _, s := range seeds {
 		for _, k := range cutPoints(len(s.data), dense) {
 			x := s.data[:k]
